@@ -555,7 +555,7 @@ def r11_server(ctx):
     before = len(ctx.obligations)
     c18.r18_4(ctx)
     for o in ctx.obligations[before:]:
-        o.rule = 'R11.6' if o.rule == 'R18.4' else o.rule
+        o.rule = 'R11.6' if o.rule in ('R18.4', 'R18.3') else o.rule
 
 
 def r11_socket(ctx):
@@ -613,6 +613,61 @@ def r11_broken_pipe(ctx):
     ctx.floor('R11-broken-pipe', n, 4)
     for q in ai.inlined:
         ctx.functions.add(q)
+
+
+def r11_multi_child_fails(ctx):
+    """A MultiPort whose child fails while it is polled: what the MultiPort had already taken out of the other children is not
+    lost - the error comes out of the call, and the next receive hands the messages out."""
+    mp = ctx.p.cls(P, 'MultiPort')
+    o, mrecv = ctx.p.lookup_method(mp, '_receive')
+    ctx.fn(mrecv)
+    w = ctx.where(mrecv)
+    n = 0
+    for order in ('good first', 'failing first'):
+        for how in ('poll', 'receive'):
+            n += 1
+            ai = pm.make_interp(ctx)
+            holder = {'armed': True}
+
+            def on_receive(interp, port, block):
+                if port is holder.get('bad') and holder['armed']:
+                    holder['armed'] = False
+                    raise AbsRaise('OSError', None)
+                return None
+            pm.device_double(ai, ctx, on_receive=on_receive)
+
+            def thunk():
+                holder['armed'] = True
+                good = pm.new_port(ai, ctx, 'BaseInput', [], {})
+                bad = pm.new_port(ai, ctx, 'BaseInput', [], {})
+                holder['bad'] = bad
+                m1, m2 = pm.note(ctx, 1), pm.note(ctx, 2)
+                good.attrs['_messages'].items.extend([m1, m2])
+                holder['msgs'] = [m1, m2]
+                multi = pm.new_port(ai, ctx, 'MultiPort', [[good, bad] if order == 'good first' else [bad, good]], {})
+                ai.sleeps = 0
+                try:
+                    first = pm.call(ai, ctx, multi, 'poll') if how == 'poll' else pm.call(ai, ctx, multi, 'receive', [], {'block': True})
+                except AbsRaise as ex:
+                    first = ('raise', ex.exc)
+                rest = [pm.call(ai, ctx, multi, 'poll') for _ in range(3)]
+                return first, rest
+            outs = ai.explore(thunk)
+            inst = f'MultiPort.{how}, a child raises OSError when polled ({order})'
+            oc = one(ctx, 'R11.10', inst, w, outs, f'{mrecv.qname}::child-fails')
+            if oc is None:
+                continue
+            ok = oc.kind == 'return'
+            if ok:
+                first, rest = oc.value
+                got = ([] if isinstance(first, tuple) or first is None else [first]) + [x for x in rest if x is not None]
+                ok = len(got) == 2 and all(isinstance(x, AObj) and x.attrs == m.attrs for x, m in zip(got, holder['msgs']))
+            ctx.require(ok, 'R11.10', inst, w,
+                        f'two messages were pending in the other child; the failing call and three polls afterwards give {oc}: both must still come out, in order',
+                        construct=f'{mrecv.qname}::child-fails')
+            for q in ai.inlined:
+                ctx.functions.add(q)
+    ctx.floor('R11.10', n, 4)
 
 
 def r11_multi_oneshot(ctx, rule='R11.9'):
@@ -701,4 +756,4 @@ def r11_reset_via_send(ctx):
     ctx.floor('R11.8', n, 3)
 
 
-RULES = [('R11.9', r11_multi_oneshot), ('R11.8', r11_reset_via_send), ('R11-broken-pipe', r11_broken_pipe), ('R11-socket', r11_socket), ('R11-server', r11_server), ('R11-close', r11_close), ('R11-send', r11_send), ('R11-receive', r11_receive), ('R11-multi', r11_multi)]
+RULES = [('R11.10', r11_multi_child_fails), ('R11.9', r11_multi_oneshot), ('R11.8', r11_reset_via_send), ('R11-broken-pipe', r11_broken_pipe), ('R11-socket', r11_socket), ('R11-server', r11_server), ('R11-close', r11_close), ('R11-send', r11_send), ('R11-receive', r11_receive), ('R11-multi', r11_multi)]
